@@ -18,6 +18,7 @@ REGISTRY = [
     ("gen-conftags", "ConfTags.v", ()),
     ("gen-nas", "NasDesc.v", ("coq",)),
     ("gen-builders", "Builders.v", (C.REPO,)),
+    ("gen-snow3g", "Snow3gTables.v", (C.REPO,)),
 ]   # (sub, outfile, args)
 
 
